@@ -161,6 +161,9 @@ pub struct RouterCfg {
     /// number of real `allocate` calls made on the router's own handler map before the router's
     /// first poll (their handlers stay parked; see `RouterHandleOps::prefilled`)
     pub prefill: usize,
+    /// > 0: give the router an event sender (as a control connection has) over a channel of this
+    /// capacity; the receiving end is `RouterParts::events`
+    pub event_channel_capacity: usize,
 }
 
 pub type SendFuture = Pin<Box<dyn Future<Output = Result<RawResponse, SendError>>>>;
@@ -189,11 +192,25 @@ pub trait ErrorRxOps {
     fn poll(&mut self) -> Result<Option<String>, ()>;
 }
 
+/// Receiving end of the event channel of a control connection.
+pub trait EventRxOps {
+    /// take every event received so far (`Debug` text)
+    fn drain(&mut self) -> Vec<String>;
+}
+
+/// (`OLD_ORPHAN_COUNT_THRESHOLD`, `OLD_AGE_ORPHAN_THRESHOLD`): the connection gives up when MORE than
+/// the first number of stream ids have been orphaned for longer than the second.
+pub fn orphan_limits() -> (usize, Duration) {
+    Connection::verif_orphan_limits()
+}
+
 pub struct RouterParts {
     /// the real `Connection::router(..)` future; poll it yourself
     pub router: Pin<Box<dyn Future<Output = ()>>>,
     pub handle: RouterHandle,
     pub errors: Box<dyn ErrorRxOps>,
+    /// present iff `RouterCfg::event_channel_capacity > 0`
+    pub events: Option<Box<dyn EventRxOps>>,
 }
 
 /// H-CONN-ROUTER: the channels and the `RouterHandle` are made exactly as `Connection::new` makes
